@@ -3,11 +3,12 @@
     [Print Assumptions] beneath.  Models: Model/Tokenizer.v, Model/Parser.v, Model/Command.v,
     Model/Printer.v; proofs: Proofs/ParserBasics.v, ExprRoundTrip.v, FuelProofs.v,
     ParserProofs.v, CommandProofs.v, TotalityProofs.v, PanicProofs.v, QueryRoundTrip.v,
-    KnownClassProofs.v. *)
+    KnownClassProofs.v, TokenizerProofs.v, LexProofs.v, CommandRoundTrip.v. *)
 From Coq Require Import NArith ZArith List Bool.
 From Snel Require Import Base.Bytes Model.Tokenizer Model.Parser Model.Command Model.Printer
   Proofs.ExprRoundTrip Proofs.FuelProofs Proofs.ParserProofs Proofs.CommandProofs
-  Proofs.TotalityProofs Proofs.PanicProofs Proofs.QueryRoundTrip Proofs.KnownClassProofs.
+  Proofs.TotalityProofs Proofs.PanicProofs Proofs.QueryRoundTrip Proofs.KnownClassProofs
+  Proofs.TokenizerProofs Proofs.CommandRoundTrip.
 Import ListNotations.
 Open Scope N_scope.
 
@@ -62,10 +63,20 @@ Theorem C17_parse_print_query : forall fx sp, speller_ok sp -> forall q, wf_quer
 Proof. exact parse_print_query. Qed.
 Print Assumptions C17_parse_print_query.
 
+(** The same through the public entry point: trim is the identity on the printed text, the
+    tokenizer finds no invalid character (strings without backslash), the first word selects the
+    QUERY grammar. *)
+Theorem C17_parse_print_command : forall fx sp q, speller_ok sp -> wf_query q = true -> clean_query q = true ->
+  parse_command fx (print_query sp q) = POk (CQuery q).
+Proof. exact parse_print_command. Qed.
+Print Assumptions C17_parse_print_command.
+
 (** The model of parse_command is total for the right reason: the fuel its entry points
     supply never runs out, on any input, in either mode. *)
-Theorem C17_fuel_enough : forall fx s, parse_command fx s <> POOF.
-Proof. exact parse_command_fuel_enough. Qed.
+Theorem C17_fuel_enough :
+  (forall fx s, parse_command fx s <> POOF) /\
+  (forall f s, (length s <= f)%nat -> tokenize_fuel f s = tokenize s).
+Proof. exact (conj parse_command_fuel_enough tokenize_fuel_enough). Qed.
 Print Assumptions C17_fuel_enough.
 
 (** Totality is false of the grammar as it is: each of the four unchecked conversions panics. *)
